@@ -217,7 +217,7 @@ package leader
 
 //@ func validateConfig(cfg)
 //@   tags C16
-//@   flag arith pure
+//@   flag pure
 //@   requires C16.duration_range: CfgInRange(cfg)
 //@   ensures C16.accepts_iff_valid: (result == nil) == ValidCfg(cfg)
 //@   ensures C16.names_offender: result != nil ==> istype(result, *ValidationError) && Offends(cfg, result.(*ValidationError).Field)
@@ -331,6 +331,7 @@ package leader
 
 //@ func RetryWithBackoff(ctx, cfg, fn)
 //@   tags C17
+//@   flag no_arith
 //@   requires C17.retry_domain: ctx != nil && fn != nil && cfg.BackoffConfig.InitialBackoff > 0 && cfg.BackoffConfig.MaxBackoff >= 0 && cfg.BackoffConfig.BackoffMultiplier >= 1.0 && 0.0 <= cfg.BackoffConfig.Jitter && cfg.BackoffConfig.Jitter <= 1.0 && cfg.BackoffConfig.MaxBackoff <= 4611686018427387904
 //@   ghost ncalls Int = 0
 //@   ghost lastNil Bool = false
@@ -372,6 +373,7 @@ package leader
 
 //@ func (cb *CircuitBreaker) Call(fn)
 //@   tags C17 C20
+//@   flag no_arith
 //@   requires fn != nil
 //@   ghost openAtEntry Bool = false
 //@   ghost inCooldown Bool = false
@@ -906,7 +908,6 @@ package leader
 
 //@ func (d *disconnectHandler) handleDisconnect()
 //@   tags C11 C20
-//@   flag arith
 //@   ghost sawLeader Bool = false
 //@   ghost timerAtLock Int = 0
 //@   on lock disconnectHandler.mu set timerAtLock = d.timer
